@@ -30,16 +30,25 @@ address const A2 = address(address_v4(0x0a000002));
 address const EXT = address(address_v4(0x63000001));
 unsigned char g_payload[6];
 
+int g_run = 0;   // 0: first execution, 1: second execution (after the interfering simulation)
+
 void program_timers()
 {
 	config cfg; simulation s(cfg); asio::io_context ios(s);
 	T(100, now_ns());
-	asio::high_resolution_timer t1(ios), t2(ios), t3(ios);
+	// the same logical timers live in differently ordered memory slots in the two executions: the order of
+	// completions must follow the arming order, never the addresses
+	alignas(asio::high_resolution_timer) static char slots[3][sizeof(asio::high_resolution_timer)];
+	int const place[2][3] = {{0, 1, 2}, {2, 1, 0}};
+	asio::high_resolution_timer& t1 = *new (slots[place[g_run][0]]) asio::high_resolution_timer(ios);
+	asio::high_resolution_timer& t2 = *new (slots[place[g_run][1]]) asio::high_resolution_timer(ios);
+	asio::high_resolution_timer& t3 = *new (slots[place[g_run][2]]) asio::high_resolution_timer(ios);
 	t1.expires_after(duration(5000)); t1.async_wait([&](error_code const& e) { T(101, now_ns(), ecv(e)); t3.cancel(); });
 	t2.expires_after(duration(5000)); t2.async_wait([&](error_code const& e) { T(102, now_ns(), ecv(e)); asio::post(ios, [&]() { T(104, now_ns()); }); });
-	t3.expires_after(duration(9000)); t3.async_wait([&](error_code const& e) { T(103, now_ns(), ecv(e)); });
+	t3.expires_after(duration(5000)); t3.async_wait([&](error_code const& e) { T(103, now_ns(), ecv(e)); });
 	asio::post(ios, [&]() { T(105, now_ns()); });
 	{ long const n = long(s.run()); T(106, n, now_ns()); }
+	t1.~high_resolution_timer(); t2.~high_resolution_timer(); t3.~high_resolution_timer();
 }
 
 void program_tcp_pcap()
@@ -125,9 +134,12 @@ void program_udp_nat_resolver()
 	cfg.net.append(std::make_shared<queue>(s.get_io_context(), 0, duration(2000000), 0, "net"));
 	asio::io_context i1(s, A1), i2(s, A2);
 	error_code ec;
-	udp::socket u1(i1), u2(i2);
+	udp::socket u1(i1);
 	u1.open(udp::v4(), ec); u1.non_blocking(true); u1.bind(udp::endpoint(A1, 0), ec);
-	u2.open(udp::v4(), ec); u2.non_blocking(true); u2.bind(udp::endpoint(A2, 6000), ec);
+	udp::socket u2a(i2);
+	u2a.open(udp::v4(), ec); u2a.non_blocking(true); u2a.bind(udp::endpoint(A2, 6000), ec);
+	// the bound socket is moved before it is used (a moved-to object must not depend on what its storage held)
+	udp::socket& u2 = *new udp::socket(std::move(u2a));
 	T(300, ep_code(u1.local_endpoint(ec).address(), u1.local_endpoint(ec).port()));
 	static unsigned char rb[8]; static udp::endpoint from;
 	std::function<void(error_code const&, std::size_t)> on_rx = [&](error_code const& e, std::size_t n)
@@ -153,6 +165,7 @@ void program_udp_nat_resolver()
 	{ long const n = long(s.run()); T(308, n, now_ns()); }
 	u1.close(ec); u2.close(ec);
 	s.run();
+	delete &u2;
 }
 
 // a different simulation that runs in between: leaves the clock elsewhere, uses other ports, other objects
@@ -186,6 +199,7 @@ extern "C" int harness_main()
 	static trace t1, t2;
 	g_tr = &t1; run_program(p);
 	interference();
+	g_run = 1;
 	g_tr = &t2; run_program(p);
 	// the two traces are identical, element by element
 	vp_assert(t1.n == t2.n, 1);
